@@ -39,9 +39,14 @@ type Cfg struct {
 	// handlers/memcached/constructors.go, server.ListenAndServe) instead of being wired by the
 	// harness; "l1l2" and "l1l2b" are then the same deployment (--l2-enabled starts both ports).
 	App bool `json:"app,omitempty"`
+	// Unix (App only): the main port listens on a unix domain socket (--use-domain-socket).
+	Unix bool `json:"unix,omitempty"`
 }
 
 func (c Cfg) String() string {
+	if c.App && c.Unix {
+		return fmt.Sprintf("%s/%s/%s/l1=%s/main-unix", c.Orca, c.Lock, c.Proto, c.L1H)
+	}
 	if c.App {
 		return fmt.Sprintf("%s/%s/%s/l1=%s/main", c.Orca, c.Lock, c.Proto, c.L1H)
 	}
